@@ -54,7 +54,8 @@ theorem upd_aget_cases {pl : PlayerF} {rr : RoundR} {q q' : Nat} {pr : PeriodR}
         | none =>
           rw [hl] at h
           have hn : aget [(q, ({} : PeriodR))] q' = none := by
-            unfold aget; simp [List.lookup, hqq]
+            have hb : (q' == q) = false := by simpa using hqq
+            simp [aget, List.lookup, hb]
           rw [hn] at h; cases h
       · cases h
 
@@ -118,12 +119,14 @@ theorem trim_asm_keep {st : Store} {period q v : Nat} (hrel : aget st.relevant q
   have hmem : v ∈ st.pinned :: st.relevant.map Prod.snd :=
     List.mem_cons_of_mem _ (List.mem_map.mpr ⟨(q, v), aget_mem hrel, rfl⟩)
   have hget := trim_fold_get st period v _ [] (Or.inl hmem)
-  unfold Store.trim Store.asm
-  simp only [adel]
-  rw [aget_filter_key _ (fun k => k != 0) v]
   have : (v != 0) = true := by simpa using hv
-  rw [this, if_pos rfl, hget]
-  simp [Assembler.trim, Store.asm]
+  have h1 : aget (st.trim period).assemblers v = some ((st.asm v).trim period) := by
+    unfold Store.trim
+    simp only [adel]
+    rw [aget_filter_key _ (fun k => k != 0) v, this, if_pos rfl]
+    exact hget
+  show ((aget (st.trim period).assemblers v).getD {}).payload = _
+  rw [h1]; rfl
 
 theorem trim_nozero (st : Store) (period : Nat) : ∀ kv ∈ (st.trim period).assemblers, kv.1 ≠ 0 := by
   intro kv hkv
@@ -313,7 +316,9 @@ theorem nr_payV {R Pd r : Nat} {pl : PlayerF} {rr rr' : RoundR} {pp : Payload} {
   split at h
   · cases h
   rename_i rr₁ a hst
-  have h1 := nr_stagedSelf (nr_store h0 (aset_nozero (ea' := { ea with payload := some pp }) h0.1 hea) rfl) hst
+  have hq' : NR R Pd r { rr with store := { rr.store with assemblers := aset rr.store.assemblers pp.value { ea with payload := some pp } } } :=
+    nr_store h0 (aset_nozero h0.1 hea) rfl
+  have h1 := nr_stagedSelf hq' hst
   split at h <;> (simp only [Except.ok.injEq, Prod.mk.injEq] at h; obtain ⟨rfl, _⟩ := h; exact h1)
 
 theorem nroot_atRound {α : Type} {R Pd Pd' : Nat} {pl : PlayerF} {root root' : Root} {r q : Nat}
@@ -347,5 +352,360 @@ theorem nframe (R Pd : Nat) : Frame P (fun _ => True) (NRoot R Pd) (NR R Pd) whe
   payP := fun pl r rr up _ h0 => nr_payP pl rr up h0
   payV := fun pl r rr rr' pp res _ h0 h => nr_payV h0 h
   fresh := fun r rr ev b h => h
+
+/-! ### `NRoot`: the two operations that are not ordinary -/
+
+theorem nr_newPeriod {R Pd r : Nat} {pl : PlayerF} {rr rr' : RoundR} {target starting : Nat} (h0 : NR R Pd r rr)
+    (h : rr.newPeriod pl target starting = .ok (rr', ())) : NR R (max Pd target) r rr' := by
+  unfold RoundR.newPeriod at h
+  split at h
+  · cases h
+  rename_i rr₁ staged hst
+  simp only [Except.ok.injEq, Prod.mk.injEq] at h
+  obtain ⟨rfl, _⟩ := h
+  have h1 := nr_stagedSelf h0 hst
+  refine ⟨trim_nozero _ _, fun q pr hq hset => ?_⟩
+  obtain ⟨a, b, c⟩ := h1.2 q pr hq hset
+  refine ⟨a, b, fun e hle => ?_⟩
+  show aget (rr₁.store.relevant.filter (fun kv => decide (kv.1 + 1 ≥ target))) q = _
+  rw [aget_filter_key rr₁.store.relevant (fun k => decide (k + 1 ≥ target)) q]
+  have hd : decide (q + 1 ≥ target) = true := by
+    simp only [decide_eq_true_eq]; omega
+  rw [hd, if_pos rfl]
+  exact c e (by omega)
+
+/-- a soft/cert threshold at the store: Staging and — with the fixed handler, in BOTH branches — `Relevant[period]` are set -/
+theorem nr_threshold {R Pd r : Nat} {pl : PlayerF} {rr rr' : RoundR} {e : Thresh} {c : Option (Nat × Option PVote)}
+    (h0 : NR R Pd r rr) (hr : r ≤ R) (hp : e.proposal ≠ 0) (h : rr.threshold pl e = .ok (rr', c)) : NR R Pd r rr' := by
+  unfold RoundR.threshold at h
+  split at h
+  · cases h
+  rename_i rr₁ hat
+  obtain ⟨pr₀, pr', hp0, hfa, hper, hst⟩ := atPeriod_out hat
+  have hstg := (stage_spec hfa).2
+  have hu := nr_rupd (pl := pl) e.period h0
+  obtain ⟨e1, _, _⟩ := RoundR.upd_fields pl rr e.period
+  have key : ∀ st' : Store, aget st'.relevant e.period = some e.proposal →
+      (∀ q, q ≠ e.period → aget st'.relevant q = aget rr.store.relevant q) →
+      ∀ q pr, aget rr₁.periods q = some pr → SetOK R Pd r st' q pr := by
+    intro st' hrel hoth q pr hq
+    rw [hper] at hq
+    by_cases hqq : q = e.period
+    · subst hqq
+      rw [aget_aset_self] at hq
+      simp only [Option.some.injEq] at hq
+      subst hq
+      intro _
+      exact ⟨by rw [hstg]; exact hp, hr, fun _ _ => by rw [hstg]; exact hrel⟩
+    · rw [aget_aset_ne _ _ _ _ hqq] at hq
+      have := hu.2 q pr hq
+      rw [e1] at this
+      exact setOK_rel (hoth q hqq) this
+  simp only [] at h
+  split at h
+  · simp only [Except.ok.injEq, Prod.mk.injEq] at h
+    obtain ⟨rfl, _⟩ := h
+    refine ⟨by show ∀ kv ∈ rr₁.store.assemblers, kv.1 ≠ 0; rw [hst]; exact h0.1, ?_⟩
+    exact key _ (by show aget (aset rr₁.store.relevant e.period e.proposal) e.period = _; exact aget_aset_self _ _ _)
+      (fun q hq => by show aget (aset rr₁.store.relevant e.period e.proposal) q = _; rw [aget_aset_ne _ _ _ _ hq, hst])
+  · simp only [Except.ok.injEq, Prod.mk.injEq] at h
+    obtain ⟨rfl, _⟩ := h
+    refine ⟨trim_nozero _ _, ?_⟩
+    exact key _ (by show aget (aset rr₁.store.relevant e.period e.proposal) e.period = _; exact aget_aset_self _ _ _)
+      (fun q hq => by show aget (aset rr₁.store.relevant e.period e.proposal) q = _; rw [aget_aset_ne _ _ _ _ hq, hst])
+
+/-- the period `proposalManager.handleNewPeriod` moves the store to -/
+def tgt (e : Thresh) : Nat := if e.kind = 3 then e.period + 1 else e.period
+
+theorem pmNewPeriod_n {R Pd : Nat} {σ σ' : State} {e : Thresh} (h0 : NRoot R Pd σ.root)
+    (h : pmNewPeriod P σ e = .ok σ') : NRoot R (max Pd (tgt e)) σ'.root ∧ σ'.pl = σ.pl := by
+  unfold pmNewPeriod at h
+  simp only [] at h
+  split at h
+  · cases h
+  rename_i _ root hx
+  simp only [Except.ok.injEq] at h
+  subst h
+  exact ⟨nroot_atRound (Nat.le_max_left _ _) h0 (fun rr rr' a hn hf => nr_newPeriod hn hf) hx, rfl⟩
+
+theorem pmThreshold_n {Pd : Nat} {σ σ' : State} {rt : Nat} {e : Thresh} {c : Option (Nat × Option PVote)}
+    (h0 : NRoot σ.pl.round Pd σ.root) (hp : e.kind ≠ 3 → e.proposal ≠ 0)
+    (h : pmThreshold P σ rt e = .ok (σ', c)) : NRoot σ.pl.round (max Pd (tgt e)) σ'.root ∧ σ'.pl = σ.pl := by
+  unfold pmThreshold at h
+  simp only [] at h
+  split at h
+  · cases h
+  rename_i hround
+  have hround : σ.pl.round = e.round := by simpa using hround
+  split at h
+  · cases h
+  split at h
+  · cases h
+  have h1 : NRoot σ.pl.round Pd ({ σ with root := σ.root.upd P σ.pl rt } : State).root :=
+    (nframe σ.pl.round Pd).upd σ.pl σ.root rt trivial h0
+  split at h
+  · split at h
+    · cases h
+    rename_i σ₁ hnp
+    simp only [Except.ok.injEq, Prod.mk.injEq] at h
+    obtain ⟨rfl, _⟩ := h
+    exact pmNewPeriod_n (σ := { σ with root := σ.root.upd P σ.pl rt }) h1 hnp
+  · rename_i hk
+    split at h
+    · cases h
+    rename_i σ₁ hσ₁
+    have h2 : NRoot σ.pl.round (max Pd (tgt e)) σ₁.root ∧ σ₁.pl = σ.pl := by
+      split at hσ₁
+      · exact pmNewPeriod_n (σ := { σ with root := σ.root.upd P σ.pl rt }) h1 hσ₁
+      · simp only [Except.ok.injEq] at hσ₁; subst hσ₁
+        exact ⟨NRoot_mono (Nat.le_max_left _ _) h1, rfl⟩
+    split at h
+    · cases h
+    rename_i root c' hx
+    simp only [Except.ok.injEq, Prod.mk.injEq] at h
+    obtain ⟨rfl, _⟩ := h
+    refine ⟨nroot_atRound (Nat.le_refl _) h2.1 (fun rr rr' a hn hf =>
+      nr_threshold hn (Nat.le_of_eq hround.symm) (hp hk) hf) hx, h2.2⟩
+
+/-! ## the relational invariant `DRoot` -/
+
+def DR (p v : Nat) (rr : RoundR) : Prop :=
+  ∃ pr, aget rr.periods p = some pr ∧ pr.ptracker.staging = v ∧ (pview pr).set = true ∧
+    aget rr.store.relevant p = some v ∧ (rr.store.asm v).payload.isSome = true
+
+def DRoot (R p v : Nat) (root : Root) : Prop := ∃ rr, aget root.rounds R = some rr ∧ DR p v rr
+
+/-- the player is in (R, p), and `p + 1` does not wrap -/
+def DOk (R p : Nat) (pl : PlayerF) : Prop := pl.round = R ∧ pl.period = p ∧ p + 1 < 18446744073709551616
+
+theorem DOk.keepP {R p : Nat} {pl : PlayerF} (h : DOk R p pl) : keepPeriod pl p = true := by
+  obtain ⟨_, h2, h3⟩ := h
+  rw [← h2] at h3 ⊢
+  exact keepPeriod_self h3
+
+theorem DOk.keepR {R p : Nat} {pl : PlayerF} (h : DOk R p pl) : keepRound P pl R = true := by
+  rw [← h.1]; exact keepRound_self P pl
+
+theorem dr_rupd {p v : Nat} {pl : PlayerF} {rr : RoundR} (q : Nat) (hk : keepPeriod pl p = true) (h : DR p v rr) :
+    DR p v (rr.upd pl q) := by
+  obtain ⟨pr, h1, h2, h3, h4, h5⟩ := h
+  obtain ⟨e1, _, _⟩ := RoundR.upd_fields pl rr q
+  exact ⟨pr, upd_aget_keep h1 hk, h2, h3, by rw [e1]; exact h4, by rw [e1]; exact h5⟩
+
+theorem dr_atPeriod {α : Type} {p v : Nat} {pl : PlayerF} {rr rr' : RoundR} {q s : Nat}
+    {f : PeriodR → Except Panic (PeriodR × α)} {a : α} (hk : keepPeriod pl p = true) (h0 : DR p v rr)
+    (hf : ∀ pr pr' a, f pr = .ok (pr', a) → SS pr pr') (h : rr.atPeriod pl q s f = .ok (rr', a)) : DR p v rr' := by
+  obtain ⟨pr, h1, h2, h3, h4, h5⟩ := h0
+  by_cases hqp : p = q
+  · subst hqp
+    obtain ⟨pr₀, pr', hp0, hfa, hper, hst⟩ := atPeriod_out h
+    rw [upd_aget_keep h1 hk] at hp0
+    simp only [Option.some.injEq] at hp0
+    subst hp0
+    have hss := hf _ _ _ hfa
+    obtain ⟨a1, a2, _⟩ := PeriodR.upd_fields pr s
+    refine ⟨pr', by rw [hper]; exact aget_aset_self _ _ _, ?_, ?_, by rw [hst]; exact h4, by rw [hst]; exact h5⟩
+    · rw [hss.1, a1]; exact h2
+    · rw [hss.2]; simp only [pview, a1, a2]; exact h3
+  · obtain ⟨g1, g2⟩ := atPeriod_frame hk hqp h1 h
+    exact ⟨pr, g1, h2, h3, by rw [g2]; exact h4, by rw [g2]; exact h5⟩
+
+theorem dr_readStaging {p v : Nat} {pl : PlayerF} {q : Nat} {rr rr' : RoundR} {st : Staged} (hk : keepPeriod pl p = true)
+    (h0 : DR p v rr) (h : rr.readStaging pl q = .ok (rr', st)) : DR p v rr' := by
+  unfold RoundR.readStaging at h
+  split at h
+  · cases h
+  rename_i rr₁ w hat
+  simp only [Except.ok.injEq, Prod.mk.injEq] at h
+  obtain ⟨rfl, _⟩ := h
+  exact dr_atPeriod hk h0 (fun pr pr' a hf => by
+    simp only [Except.ok.injEq, Prod.mk.injEq] at hf
+    rw [← hf.1]; exact ss_refl _) hat
+
+/-- a store change that keeps `Relevant[p]` and the payload of `v` -/
+theorem dr_store {p v : Nat} {rr : RoundR} {st' : Store} (h0 : DR p v rr) (hr : aget st'.relevant p = some v)
+    (hpay : (st'.asm v).payload = (rr.store.asm v).payload) : DR p v { rr with store := st' } := by
+  obtain ⟨pr, h1, h2, h3, _, h5⟩ := h0
+  exact ⟨pr, h1, h2, h3, hr, by show (st'.asm v).payload.isSome = true; rw [hpay]; exact h5⟩
+
+theorem dr_pvote {p v : Nat} (hv : v ≠ 0) {pl : PlayerF} {rr rr' : RoundR} {x : PVote} {res : PVRes}
+    (hk : keepPeriod pl p = true) (h0 : DR p v rr) (h : rr.pvoteVerified pl x = .ok (rr', res)) : DR p v rr' := by
+  unfold RoundR.pvoteVerified at h
+  split at h
+  · cases h
+  · rename_i rr₁ b hat
+    simp only [Except.ok.injEq, Prod.mk.injEq] at h
+    obtain ⟨rfl, _⟩ := h
+    exact dr_atPeriod hk h0 (fun pr pr' a hf => ss_of_pview (pvoteVerified_pview hf)) hat
+  · rename_i rr₁ val pay hat
+    simp only [Except.ok.injEq, Prod.mk.injEq] at h
+    obtain ⟨rfl, _⟩ := h
+    have h1 := dr_atPeriod hk h0 (fun pr pr' a hf => ss_of_pview (pvoteVerified_pview hf)) hat
+    obtain ⟨pr₀, pr', _, hfa, hper, _⟩ := atPeriod_out hat
+    have hz := pvoteVerified_accepted_staging hfa
+    have hne : p ≠ x.period := by
+      intro he
+      obtain ⟨pr, g1, g2, _⟩ := h1
+      rw [he, hper, aget_aset_self] at g1
+      simp only [Option.some.injEq] at g1
+      subst g1
+      rw [hz] at g2
+      exact hv g2.symm
+    obtain ⟨pr, g1, g2, g3, g4, g5⟩ := h1
+    have hrel : aget (aset rr₁.store.relevant x.period val) p = some v := by
+      rw [aget_aset_ne _ _ _ _ hne]; exact g4
+    refine dr_store ⟨pr, g1, g2, g3, g4, g5⟩ hrel ?_
+    rw [trim_asm_keep (st := { rr₁.store with assemblers := _, relevant := _ }) hrel hv]
+    by_cases hvv : v = val
+    · subst hvv
+      show (({ rr₁.store with assemblers := aset rr₁.store.assemblers v _ } : Store).asm v).payload = _
+      rw [asm_aset_self]
+    · show (({ rr₁.store with assemblers := aset rr₁.store.assemblers val _ } : Store).asm v).payload = _
+      rw [asm_aset_ne _ _ _ _ hvv]
+
+theorem asm_of_aget {st : Store} {k : Nat} {ea : Assembler} (h : aget st.assemblers k = some ea) : st.asm k = ea := by
+  unfold Store.asm; rw [h]; rfl
+
+theorem dr_payP {p v : Nat} (pl : PlayerF) (rr : RoundR) (up : Payload) (h0 : DR p v rr) :
+    DR p v (rr.payloadPresent pl up).1 := by
+  unfold RoundR.payloadPresent
+  split
+  · exact h0
+  rename_i ea hea
+  split
+  · exact h0
+  split
+  · exact h0
+  obtain ⟨pr, g1, g2, g3, g4, g5⟩ := h0
+  refine dr_store ⟨pr, g1, g2, g3, g4, g5⟩ g4 ?_
+  by_cases hvv : v = up.value
+  · subst hvv
+    rw [asm_aset_self, asm_of_aget hea]
+  · rw [asm_aset_ne _ _ _ _ hvv]
+
+theorem dr_payV {p v : Nat} {pl : PlayerF} {rr rr' : RoundR} {pp : Payload} {res : PayRes} (hk : keepPeriod pl p = true)
+    (h0 : DR p v rr) (h : rr.payloadVerified pl pp = .ok (rr', res)) : DR p v rr' := by
+  unfold RoundR.payloadVerified at h
+  split at h
+  · simp only [Except.ok.injEq, Prod.mk.injEq] at h; obtain ⟨rfl, _⟩ := h; exact h0
+  rename_i ea hea
+  split at h
+  · simp only [Except.ok.injEq, Prod.mk.injEq] at h; obtain ⟨rfl, _⟩ := h; exact h0
+  rename_i hnp
+  simp only [] at h
+  split at h
+  · cases h
+  rename_i rr₁ a hst
+  have hvv : v ≠ pp.value := by
+    intro he
+    obtain ⟨_, _, _, _, _, g5⟩ := h0
+    rw [he, asm_of_aget hea] at g5
+    exact hnp g5
+  have hq' : DR p v { rr with store := { rr.store with assemblers := aset rr.store.assemblers pp.value { ea with payload := some pp } } } := by
+    obtain ⟨pr, g1, g2, g3, g4, g5⟩ := h0
+    exact dr_store ⟨pr, g1, g2, g3, g4, g5⟩ g4 (by rw [asm_aset_ne _ _ _ _ hvv])
+  unfold RoundR.stagedSelf at hst
+  have h1 := dr_readStaging hk (dr_rupd _ hk hq') hst
+  split at h <;> (simp only [Except.ok.injEq, Prod.mk.injEq] at h; obtain ⟨rfl, _⟩ := h; exact h1)
+
+theorem droot_atRound {α : Type} {R p v : Nat} {pl : PlayerF} {root root' : Root} {r q : Nat}
+    {f : RoundR → Except Panic (RoundR × α)} {a : α} (hok : DOk R p pl) (h0 : DRoot R p v root)
+    (hf : r = R → ∀ rr rr' a, DR p v rr → f rr = .ok (rr', a) → DR p v rr')
+    (h : root.atRound P pl r q f = .ok (root', a)) : DRoot R p v root' := by
+  obtain ⟨rr, hrr, hd⟩ := h0
+  obtain ⟨rr₀, rr', hrr₀, hfa, hrounds⟩ := atRound_out' h
+  have hup : aget (root.upd P pl r).rounds R = some rr := Root.upd_aget_keep hrr hok.keepR
+  by_cases hrR : r = R
+  · subst hrR
+    rw [hup] at hrr₀
+    simp only [Option.some.injEq] at hrr₀
+    subst hrr₀
+    exact ⟨rr', by rw [hrounds]; exact aget_aset_self _ _ _, hf rfl _ _ _ (dr_rupd q hok.keepP hd) hfa⟩
+  · exact ⟨rr, by rw [hrounds, aget_aset_ne _ _ _ _ (fun e => hrR e.symm)]; exact hup, hd⟩
+
+theorem dframe (R p v : Nat) (hv : v ≠ 0) :
+    Frame P (DOk R p) (DRoot R p v) (fun r rr => r = R → DR p v rr) where
+  congr := by
+    intro pl pl' h1 h2 ⟨a, b, c⟩
+    exact ⟨h1.trans a, h2.trans b, c⟩
+  upd := by
+    intro pl root r hok ⟨rr, hrr, hd⟩
+    exact ⟨rr, Root.upd_aget_keep hrr hok.keepR, hd⟩
+  atRound := fun pl root root' r q f a hok h0 hf h =>
+    droot_atRound hok h0 (fun e rr rr' a hd hfa => hf rr rr' a (fun _ => hd) hfa e) h
+  rupd := fun pl r rr q hok h e => dr_rupd q hok.keepP (h e)
+  atPeriod := fun pl r rr rr' q s f a hok h0 hf h e => dr_atPeriod hok.keepP (h0 e) hf h
+  pvote := fun pl r rr rr' x res hok h0 h e => dr_pvote hv hok.keepP (h0 e) h
+  payP := fun pl r rr up hok h0 e => dr_payP pl rr up (h0 e)
+  payV := fun pl r rr rr' pp res hok h0 h e => dr_payV hok.keepP (h0 e) h
+  fresh := by
+    intro r rr ev b h e
+    obtain ⟨pr, g⟩ := h e
+    exact ⟨pr, g⟩
+
+/-- a threshold of another period, or of this period for the same value, keeps `DR` -/
+theorem dr_threshold {p v : Nat} (hv : v ≠ 0) {pl : PlayerF} {rr rr' : RoundR} {e : Thresh}
+    {c : Option (Nat × Option PVote)} (hk : keepPeriod pl p = true) (h0 : DR p v rr)
+    (hsame : e.period = p → e.proposal = v) (h : rr.threshold pl e = .ok (rr', c)) : DR p v rr' := by
+  unfold RoundR.threshold at h
+  split at h
+  · cases h
+  rename_i rr₁ hat
+  have h1 : DR p v rr₁ := by
+    by_cases hpe : p = e.period
+    · obtain ⟨pr, g1, g2, g3, g4, g5⟩ := h0
+      obtain ⟨pr₀, pr', hp0, hfa, hper, hst⟩ := atPeriod_out hat
+      have hpv := stage_pview hfa
+      refine ⟨pr', by rw [hpe, hper]; exact aget_aset_self _ _ _, ?_, ?_, by rw [hst]; exact g4, by rw [hst]; exact g5⟩
+      · rw [(stage_spec hfa).2]; exact hsame hpe.symm
+      · rw [hpv]
+    · obtain ⟨pr, g1, g2, g3, g4, g5⟩ := h0
+      obtain ⟨f1, f2⟩ := atPeriod_frame hk hpe g1 hat
+      exact ⟨pr, f1, g2, g3, by rw [f2]; exact g4, by rw [f2]; exact g5⟩
+  obtain ⟨pr, g1, g2, g3, g4, g5⟩ := h1
+  have hrel : aget (aset rr₁.store.relevant e.period e.proposal) p = some v := by
+    by_cases hpe : p = e.period
+    · rw [hpe, aget_aset_self, hsame hpe.symm]
+    · rw [aget_aset_ne _ _ _ _ hpe]; exact g4
+  simp only [] at h
+  split at h
+  · simp only [Except.ok.injEq, Prod.mk.injEq] at h
+    obtain ⟨rfl, _⟩ := h
+    exact dr_store ⟨pr, g1, g2, g3, g4, g5⟩ hrel rfl
+  · simp only [Except.ok.injEq, Prod.mk.injEq] at h
+    obtain ⟨rfl, _⟩ := h
+    refine dr_store ⟨pr, g1, g2, g3, g4, g5⟩ hrel ?_
+    rw [trim_asm_keep (st := { rr₁.store with assemblers := _, relevant := _ }) hrel hv]
+    by_cases hvv : v = e.proposal
+    · rw [← hvv]
+      show (({ rr₁.store with assemblers := aset rr₁.store.assemblers v _ } : Store).asm v).payload = _
+      rw [asm_aset_self]
+    · show (({ rr₁.store with assemblers := aset rr₁.store.assemblers e.proposal _ } : Store).asm v).payload = _
+      rw [asm_aset_ne _ _ _ _ hvv]
+
+/-- a soft/cert threshold that does not start a new period at the store -/
+theorem pmThreshold_d {R p v : Nat} (hv : v ≠ 0) {σ σ' : State} {rt : Nat} {e : Thresh} {c : Option (Nat × Option PVote)}
+    (hok : DOk R p σ.pl) (h0 : DRoot R p v σ.root) (hk3 : e.kind ≠ 3) (hle : ¬ σ.pl.period < e.period)
+    (hsame : e.period = p → e.proposal = v) (h : pmThreshold P σ rt e = .ok (σ', c)) :
+    DRoot R p v σ'.root ∧ σ'.pl = σ.pl := by
+  unfold pmThreshold at h
+  simp only [] at h
+  split at h
+  · cases h
+  split at h
+  · cases h
+  split at h
+  · cases h
+  have h1 : DRoot R p v ({ σ with root := σ.root.upd P σ.pl rt } : State).root :=
+    (dframe R p v hv).upd σ.pl σ.root rt hok h0
+  try rw [if_neg hk3] at h
+  try rw [if_neg hle] at h
+  simp only [] at h
+  split at h
+  · cases h
+  rename_i root c' hx
+  simp only [Except.ok.injEq, Prod.mk.injEq] at h
+  obtain ⟨rfl, _⟩ := h
+  exact ⟨droot_atRound hok h1 (fun _ rr rr' a hd hf => dr_threshold hv hok.keepP hd hsame hf) hx, rfl⟩
 
 end AlgoVerif.Lemmas.PlayerAttest
